@@ -317,6 +317,27 @@ def _scan_library_state():
                         _MODULE_SNAPSHOT[key] = None
                 if _MODULE_SNAPSHOT[key] is not None:
                     containers.append((val, _MODULE_SNAPSHOT[key]))
+            elif isinstance(val, type) and getattr(val, '__module__', '') == mname:
+                # class-level state: mutable containers and immutable scalars declared in a class body are shared by all
+                # instances and survive every call, exactly like module globals
+                for cname, cval in list(vars(val).items()):
+                    if cname.startswith('__'):
+                        continue
+                    key = (mname, name, cname)
+                    if isinstance(cval, (dict, list, set)):
+                        if key not in _MODULE_SNAPSHOT:
+                            try:
+                                _MODULE_SNAPSHOT[key] = _copy.deepcopy(cval)
+                            except Exception:
+                                _MODULE_SNAPSHOT[key] = None
+                        if _MODULE_SNAPSHOT[key] is not None:
+                            containers.append((cval, _MODULE_SNAPSHOT[key]))
+                    elif isinstance(cval, (bool, int, float, complex, str, bytes, tuple, frozenset, type(None))):
+                        if key not in _MODULE_SNAPSHOT:
+                            _MODULE_SNAPSHOT[key] = ('scalar', cval)
+                        scalars.append((val, cname, _MODULE_SNAPSHOT[key][1]))
+                    elif callable(getattr(cval, 'cache_clear', None)):
+                        caches.append(cval)
     _RESET_PLAN['caches'], _RESET_PLAN['containers'], _RESET_PLAN['scalars'] = caches, containers, scalars
 
 
